@@ -79,7 +79,11 @@ def _interp_body(ctx, kind, pattern, gaps_c, width, t0, ada, step, out, inp):
                 t = times[-1] + timedelta(microseconds=gaps_c[i - 1])
             else:
                 t = times[-1] + ctx.td(f"g{i - 1}", lo_us=1)
-            if spill:
+            if ctx.params.get("deps"):
+                # missing-value dependency sets (see hlib.Dep): one element per publication
+                v = [hlib.Dep({i}) for c in range(width)]
+                out.push_data(np.array(v, dtype=object), t)
+            elif spill:
                 # files cannot hold symbolic terms: distinct concrete values, not linear in the index
                 v = [float((i + 1) ** 2 * 100 + c) for c in range(width)]
                 out.push_data(np.array(v, dtype=float), t)
@@ -107,11 +111,16 @@ def _interp_body(ctx, kind, pattern, gaps_c, width, t0, ada, step, out, inp):
             ctx.check((r < times[0]) | (r > times[-1]), "refused-inside-published-range",
                       {"sig": kind, "res": res})
         else:
-            ctx.log(f"req{ri}", got)
+            ctx.log(f"req{ri}", "ok" if ctx.params.get("deps") else got)
             ctx.check((r >= times[0]) & (r <= times[-1]), "extrapolated-outside-published-range",
                       {"sig": kind})
             exp = expected(ctx, kind, step, times, vals, r)
-            if exp is not None:
+            if exp is not None and ctx.params.get("deps"):
+                for c in range(width):
+                    ok = isinstance(got[c], hlib.Dep) and got[c].deps == exp[c].deps
+                    ctx.check(ok, "missing-value-dependencies-differ-from-definition",
+                              {"sig": kind, "used": repr(got[c]), "definition": repr(exp[c])})
+            elif exp is not None:
                 for c in range(width):
                     ctx.check(ctx.eq(got[c], exp[c]), "value-differs-from-definition", {"sig": kind})
         ri += 1
@@ -200,7 +209,9 @@ EXPLANATION = (
     "microseconds, the step position a symbolic real in [0,1]. The harness locates each request between publications "
     "by its own forks, builds the interpolant of the definition over ALL publications (so discarded buffer entries "
     "must not matter) and asks z3 for PC ∧ delivered ≠ definition; refusals must coincide exactly with requests "
-    "outside the published range."
+    "outside the published range. The ':missing' families publish hlib.Dep elements (sets of publication indices "
+    "propagated by the real arithmetic, also through zero weights like 0*nan) and require the delivered set to equal "
+    "the set the definition uses."
 )
 ASSUMPTIONS = ["request times are non-decreasing", "float interpolation arithmetic is evaluated over the reals"]
 
@@ -231,6 +242,16 @@ def families(tier):
             params={"kind": kind, "pattern": pat, "gaps": None},
             bounds=f"adapter {kind}; event pattern {pat}; symbolic gaps >= 1 us, symbolic values and requests",
             must_cover=["req:ok", "req:time-error"], query_timeout_ms=20000))
+    for kind in ("next", "prev", "linear", "step"):
+        pat = "PPPPRRR" if q else "PPPRPPRRR"
+        fams.append(dict(
+            name=f"{kind}:{pat}:missing", ref="vf.props.c11:h_interp",
+            params={"kind": kind, "pattern": pat, "gaps": [3, 1, 5, 2][: pat.count("P") - 1], "deps": True},
+            bounds=f"adapter {kind}; pattern {pat}; missing-value dependency sets (hlib.Dep payloads: the delivered "
+                   f"value may be computed from exactly the publications the definition uses, so a nan / masked cell "
+                   f"of any other publication cannot leak); symbolic request times"
+                   + ("; symbolic step position" if kind == "step" else ""),
+            must_cover=["req:ok"]))
     for kind in ("next", "prev", "linear", "step"):
         for pat in (["PPPRPR"] if q else ["PPPRPR", "PPRPRPR", "PPPRPRR", "PRPPRPR"]):
             fams.append(dict(
